@@ -2086,6 +2086,38 @@ def _free(eng, st, p, what):
     return None
 
 
+# ---- tbbmalloc by documented contract (C14, TBB configuration)
+@model("scalable_aligned_malloc")
+def m_scalable_aligned_malloc(eng, st, ins, name, args):
+    n = _conc(eng, st, args[0], "scalable_aligned_malloc size")
+    al = _conc(eng, st, args[1], "scalable_aligned_malloc alignment")
+    if n == 0 or al == 0 or (al & (al - 1)):
+        return 0
+    if n > (1 << 24):
+        return 0
+    # aligned to exactly the requested alignment (base = al mod 2*al), never more by luck
+    a2 = max(al, 16)
+    base = (st.next_addr + 2 * a2 - 1) // (2 * a2) * (2 * a2) + a2
+    st.next_addr = base
+    return eng.alloc(st, n, "heap", "scalable_aligned_malloc block of %d bytes" % n, align=a2)
+
+
+@model("scalable_malloc")
+def m_scalable_malloc(eng, st, ins, name, args):
+    n = _conc(eng, st, args[0], "scalable_malloc size")
+    if n > (1 << 24):
+        return 0
+    # no alignment promise beyond malloc's natural 16 bytes: adversarially 16 mod 32
+    base = (st.next_addr + 31) // 32 * 32 + 16
+    st.next_addr = base
+    return eng.alloc(st, max(n, 1), "heap", "scalable_malloc block of %d bytes" % n, align=16)
+
+
+@model("scalable_aligned_free", "scalable_free")
+def m_scalable_free(eng, st, ins, name, args):
+    return _free(eng, st, args[0], name)
+
+
 @model("free")
 def m_free(eng, st, ins, name, args):
     return _free(eng, st, args[0], "free")
